@@ -338,8 +338,10 @@ impl Decoder {
             let key_size = key_bits as usize / 8;
             let key = key_derivation_user_password_rc4(level, key_size, dict, id, pass);
 
+            // /EncryptMetadata is meaningful from V 4 on; below, the metadata stream is encrypted like every other stream
+            let encrypt_metadata = dict.encrypt_metadata || dict.v < 4;
             if check_password_rc4(level, dict.u.as_bytes(), id, &key[..std::cmp::min(key_size, 16)]) {
-                let decoder = Decoder::new(key, key_size, method, dict.encrypt_metadata);
+                let decoder = Decoder::new(key, key_size, method, encrypt_metadata);
                 Ok(decoder)
             } else {
                 let password_wrap_key = key_derivation_owner_password_rc4(level, key_size, pass)?;
@@ -363,7 +365,7 @@ impl Decoder {
                 );
 
                 if check_password_rc4(level, dict.u.as_bytes(), id, &key[..key_size]) {
-                    let decoder = Decoder::new(key, key_size, method, dict.encrypt_metadata);
+                    let decoder = Decoder::new(key, key_size, method, encrypt_metadata);
                     Ok(decoder)
                 } else {
                     Err(PdfError::InvalidPassword)
